@@ -143,6 +143,30 @@ def built_case(rng, style="plain", which=None, mpm=None, bins=None):
         spec = dict(cls="TimeReversibleDinucleotide", preds=["kappa"], mprob_model=mpm)
         names = ["kappa"]
         nmp, fam = (4 if mpm in ("monomer", "monomers") else 16), "dinucleotide"
+    elif which in ("rand_preds_nuc", "rand_preds_dinuc"):
+        # any mixture of undirected and DIRECTED single-nucleotide predicates handed to a TimeReversible class: the
+        # constructor may refuse (unbalanced / redundant); whatever it accepts must behave as a time-reversible model
+        dirs = [(a, b) for a in NUC for b in NUC if a != b]
+        preds, seen = [], set()
+        for _ in range(rng.randint(1, 4)):
+            if rng.random() < 0.5:
+                a, b = rng.choice(pairs)
+                pr = [a, b, False]
+            else:
+                a, b = rng.choice(dirs)
+                pr = [a, b, True]
+                if rng.random() < 0.6:   # and its mirror image as a separate parameter
+                    if (b, a, True) not in seen:
+                        seen.add((b, a, True))
+                        preds.append([b, a, True])
+            if tuple(pr) not in seen:
+                seen.add(tuple(pr))
+                preds.append(pr)
+        cls = "TimeReversibleNucleotide" if which == "rand_preds_nuc" else "TimeReversibleDinucleotide"
+        mpm = None if which == "rand_preds_nuc" else rng.choice(["tuple", "monomer", "conditional"])
+        spec = dict(cls=cls, preds=preds, mprob_model=mpm)
+        names = [f"{a}>{b}" if f else f"{a}/{b}" for a, b, f in preds]
+        nmp, fam = (4 if (which == "rand_preds_nuc" or mpm == "monomer") else 16), ("nucleotide" if which == "rand_preds_nuc" else "dinucleotide")
     elif which == "subset_nuc":
         keep = sorted(rng.sample(list(NUC), 3))
         spec = dict(cls=rng.choice(["TimeReversibleNucleotide", "NonReversibleNucleotide"]), preds=[[keep[0], keep[1], False]],
@@ -186,6 +210,55 @@ def built_case(rng, style="plain", which=None, mpm=None, bins=None):
                 t2=rand_length(rng, "plain"), bins=bins, light=False, style=style, family=fam, built=which)
 
 
+GS_PARAMS = [f"{a}>{b}" for a in NUC[:3] for b in NUC if a != b]   # rows T, C, A are free; row G is solved for
+
+
+def gs_requirements(params, pi):
+    """GeneralStationary: the exchangeabilities G>T, G>C, G>A are what stationarity of pi requires,
+    pi_G R[G,j] = sum_k pi_k R[j,k] - sum_{i != G} pi_i R[i,j]   (exact rationals).  Returns (R, required)"""
+    R = [[Fraction(0)] * 4 for _ in range(4)]
+    for nm, v in params.items():
+        R[NUC.index(nm[0])][NUC.index(nm[2])] = Fraction(v)
+    p = [Fraction(x) for x in pi]
+    req = []
+    for j in range(3):
+        row_total = sum(p[k] * R[j][k] for k in range(4))
+        col_total = sum(p[i] * R[i][j] for i in range(3))
+        req.append(row_total - col_total)
+        R[3][j] = (row_total - col_total) / p[3]
+    return R, req
+
+
+def gs_case(rng):
+    """a parameter vector placed just inside or just outside the feasible region of ONE chosen dependent column"""
+    pi = rand_probs(rng, 4, "plain")
+    for _ in range(50):
+        params = {nm: rng.randint(4, 48) / 16 for nm in GS_PARAMS}
+        j = rng.randrange(3)
+        i = rng.choice([x for x in range(3) if x != j])
+        nm = f"{NUC[i]}>{NUC[j]}"
+        p0 = dict(params)
+        p0[nm] = 0.0
+        _, req0 = gs_requirements(p0, pi)
+        vstar = req0[j] / Fraction(pi[i])          # value of the chosen parameter at which column j becomes infeasible
+        side = rng.choice(["inside", "outside", "far-inside"])
+        factor = {"inside": Fraction(15, 16), "outside": Fraction(17, 16), "far-inside": Fraction(1, 2)}[side]
+        v = float(Fraction(round(vstar * factor * 4096), 4096))
+        if not 1e-3 < v < 1e3:
+            continue
+        params[nm] = v
+        _, req = gs_requirements(params, pi)
+        feasible = all(x >= 0 for x in req)
+        if side == "outside" and sum(1 for x in req if x < 0) != 1:
+            continue   # exactly the chosen column violates the requirement
+        if side != "outside" and not feasible:
+            continue
+        return dict(kind="lf", spec=dict(cls="GeneralStationary", preds=[], mprob_model=None), params=params, mprobs=pi,
+                    t1=rand_length(rng, "plain"), t2=rand_length(rng, "plain"), bins=None, light=False, style="gs_" + side,
+                    family="nucleotide", built="general_stationary", gs_column=j, gs_feasible=feasible)
+    return built_case(rng, "plain", which="general_stationary")
+
+
 def small_rate_matrix(rng, n):
     """dyadic generator with zero row sums, entries k/8"""
     A = [[0.0] * n for _ in range(n)]
@@ -207,6 +280,24 @@ def aux_cases(rng, tier):
             A = [[x / 8 for x in row] for row in A]
         out.append(dict(kind="pade", A=A))
     out.append(dict(kind="pade", A=[[0.0] * 3 for _ in range(3)]))
+    # large distances: the same rate matrix at t = 4 .. 32 (norm of Q t between ~10 and ~200), every back-end
+    nbig = 8 if tier == "quick" else 60
+
+    def big(n):
+        # the speed of the process (norm of Q) and the time are drawn independently: fast Q x short t, slow Q x long t, ...
+        while True:
+            sc = rng.choice([1.0, 0.25, 1 / 16, 1 / 64, 1 / 256])
+            A = [[x * sc for x in row] for row in small_rate_matrix(rng, n)]
+            t = rng.choice([1.0, 4.0, 16.0, 64.0, 256.0, 1024.0, 4096.0])
+            norm = max(sum(abs(x) for x in row) for row in A) * t
+            if 4 <= norm <= 250:
+                return A, t
+
+    for _ in range(nbig):
+        A, t = big(rng.choice([3, 4]))
+        out.append(dict(kind="pade", A=A, t=t))
+        A, t = big(rng.choice([3, 4]))
+        out.append(dict(kind="expm_all", A=A, t=t))
     ntay = 3 if tier == "quick" else 20
     for _ in range(ntay):
         # norm < 1: the plain series is evaluated as is (also by a scaling-and-squaring variant, whose j is then 0)
@@ -267,6 +358,12 @@ def build_cases(rng, tier):
                 bins["bprobs"] = rand_probs(rng, n, "plain")
             cases.append(named_case(rng, name, "plain", bins=bins))
     # quick: one codon model per motif-probability model (monomer, conditional, tuple) + one other
+    for name, setting in (("HKY85", "pade"), ("GN", "either")) if tier == "quick" else \
+            [(nm, st_) for nm in ("HKY85", "GN", "GTR", "TN93") for st_ in ("pade", "either", "eigen")]:
+        bins = dict(n=rng.choice([6, 8]), dist="gamma", shape=rng.choice([0.1, 0.125, 0.25]))
+        c = named_case(rng, name, "plain", bins=bins)
+        c.update(t1=rng.choice([4.0, 6.0, 8.0]), t2=rng.choice([6.0, 10.0]), expm=setting, style="long_x_rate")
+        cases.append(c)
     codon = CODON if tier != "quick" else ["MG94HKY", "CNFGTR", "Y98", rng.choice(["MG94GTR", "CNFHKY", "GY94", "H04G", "H04GK", "H04GGK", "GNC"])]
     for name in codon:
         for r in range(1 if tier == "quick" else 5):
@@ -287,7 +384,10 @@ def build_cases(rng, tier):
     cases.append(built_case(rng, "plain", which="subset_dinuc", mpm="monomer",
                             bins=dict(n=2, dist="free", shape=1.0, partition=[0.25, 0.75], bprobs=[0.625, 0.375])))
     cases.append(built_case(rng, "plain", which="subset_nuc"))
-    cases.append(built_case(rng, "plain", which="general_stationary"))
+    for _ in range(10 if tier == "quick" else 80):
+        cases.append(built_case(rng, "plain", which=rng.choice(["rand_preds_nuc", "rand_preds_nuc", "rand_preds_dinuc"])))
+    for _ in range(12 if tier == "quick" else 90):
+        cases.append(gs_case(rng))
     if tier != "quick":
         for _ in range(12):
             cases.append(built_case(rng, rng.choice(["plain", "extreme", "tiny_pi"]), which="subset_dinuc"))
@@ -383,8 +483,9 @@ def pade_q_j(A):
 
 def coq_aux_case(c, r):
     if c["kind"] == "pade":
-        q, j = pade_q_j(c["A"])
-        As = (numpy.array(c["A"], float) / 2.0 ** j).tolist()
+        At = numpy.array(c["A"], float) * c.get("t", 1.0)   # dyadic entries and t: the product is exact
+        q, j = pade_q_j(At)
+        As = (At / 2.0 ** j).tolist()
         return f"CasePade {nat(len(As))} {nat(q)} {coq_ratmat(As)}"
     if c["kind"] == "taylor":
         return f"CaseTaylor {nat(len(c['A']))} {nat(r['q_after'] - 1)} {coq_ratmat(c['A'])}"
@@ -483,7 +584,12 @@ def oracle_Q(c, r):
     mono = dict(zip(r["mprobs_keys"], r["mprobs"])) if kind == "monomer" else None
     per = [dict(zip(r["mprobs_keys"], row)) for row in r["mprobs"]] if kind == "monomers" else None
     if not name and spec["cls"] == "GeneralStationary":
-        return None
+        Rf, req = gs_requirements(params, r["mprobs"])
+        if any(x < 0 for x in req):
+            return None
+        q = numpy.array([[float(Rf[i][j]) * pi[j] if i != j else 0.0 for j in range(4)] for i in range(4)])
+        q -= numpy.diag(q.sum(axis=1))
+        return q / -(pi * numpy.diag(q)).sum()
     has_omega = ("omega" in params)
     q = numpy.zeros((n, n))
     for i, wi in enumerate(words):
@@ -730,8 +836,31 @@ def spec_checks(ck: Checker, c, r):
 
 
 def aux_spec_checks(ck: Checker, c, r):
-    if c["kind"] == "pade":
+    if c["kind"] == "expm_all":
         A = numpy.array(c["A"])
+        t = c["t"]
+        ref = ref_expm(A, t)
+        try:
+            condV = float(numpy.linalg.cond(numpy.linalg.eig(A)[1]))
+        except numpy.linalg.LinAlgError:
+            condV = float("inf")
+        ill = not condV < 1e5
+        for k, M in r["backends"].items():
+            if isinstance(M, dict):
+                ck.check(k in ("checked", "expdefn:checked", "fast", "expdefn:eigen"), f"P:backend-raised:{k}", c,
+                         f"exponentiator {k} raised", dict(observed_impl=M))
+                continue
+            key = f"P:backend:{k}"
+            if ill and k in ("fast", "expdefn:eigen"):
+                key = "P:eigen-unchecked:ill-conditioned"
+            elif ill and k in ("checked", "expdefn:checked", "expdefn:either"):
+                key = "P:eigen-checked:ill-conditioned"
+            M = numpy.array(M)
+            if ck.near(M, ref, TOL_BACKENDS, key, c, f"back-end {k} differs from exp(Qt)", dict(t=t, cond_eigenvectors=condV)):
+                ck.near(M.sum(axis=1), numpy.ones(len(A)), TOL_BACKENDS, key, c, f"back-end {k}: rows do not sum to one", dict(t=t))
+        return
+    if c["kind"] == "pade":
+        A = numpy.array(c["A"]) * c.get("t", 1.0)
         ref = ref_expm(A, 1.0)
         ck.near(r["F"], ref, TOL_BACKENDS, "pade:expm", c, "PadeExponentiator differs from exp(A)")
         ck.near(numpy.array(r["F"]).sum(axis=1), numpy.ones(len(A)), TOL, "pade:rows", c, "Pade rows do not sum to one")
@@ -772,7 +901,7 @@ def model_compare(ck: Checker, c, r, mv, terms, disagreements, p_reliable=True):
                 dis("model:P:" + c["family"], "model Taylor P and implementation P differ", P, r["P"][sorted(r["P"])[0]]["a"], m)
     elif c["kind"] == "pade":
         N, D = [numpy.array(unscale(x)) for x in mv]
-        q, j = pade_q_j(c["A"])
+        q, j = pade_q_j(numpy.array(c["A"], float) * c.get("t", 1.0))
         F = numpy.array(r["F"])
         # undo the j squarings is not possible; instead square the model's own solution
         X = numpy.linalg.solve(D, N)
@@ -831,7 +960,9 @@ def coverage_grid():
 def run_model(cases, impl):
     terms, coq_cases, idx = [], [], []
     for k, (c, r) in enumerate(zip(cases, impl)):
-        if isinstance(r, dict) and "exc" in r:
+        if isinstance(r, dict) and ("exc" in r or "refused" in r):
+            continue
+        if c["kind"] == "expm_all":
             continue
         if c["kind"] == "lf":
             cc = coq_lf_case(c, r)
@@ -895,7 +1026,7 @@ def run(tier: str, seed: int) -> int:
     nontrivial = set()
     dist = {}
     matrix = {}
-    skipped = 0
+    refusals, gs_stats = {}, {}
     for k, (c, r) in enumerate(zip(cases, impl)):
         dk = c["kind"] + ":" + (c.get("family") or c.get("which") or "")
         dist[dk] = dist.get(dk, 0) + 1
@@ -904,9 +1035,21 @@ def run(tier: str, seed: int) -> int:
             rep.violation(key, dict(case=c, observed_impl=r, broken="a valid model/parameter setting made the implementation raise or hang"))
             continue
         p_reliable = True
-        if isinstance(r, dict) and "skipped" in r:
-            skipped += 1
+        if isinstance(r, dict) and "refused" in r:
+            # a constructor / parameter refusal is compliant; refusing a vector the exact oracle finds feasible with margin is not
+            tag = f"{c['spec'].get('cls') or c['spec'].get('name')}:{r['stage']}"
+            refusals[tag] = refusals.get(tag, 0) + 1
+            if c.get("built") == "general_stationary":
+                gs_stats["refused:" + c.get("style", "")] = gs_stats.get("refused:" + c.get("style", ""), 0) + 1
+                if c.get("gs_feasible") and c.get("style") == "gs_far-inside":
+                    rep.violation("GS:refused-feasible", dict(case=c, observed_impl=r, broken="GeneralStationary refused a parameter "
+                                  "vector for which every dependent exchangeability is positive (exact oracle)"))
+            elif r["stage"] != "constructor":
+                rep.violation(f"raised:{c['kind']}:{c.get('family', '')}", dict(case=c, observed_impl=r,
+                              broken="parameter values within bounds were refused"))
             continue
+        if c.get("built") == "general_stationary":
+            gs_stats["accepted:" + c.get("style", "")] = gs_stats.get("accepted:" + c.get("style", ""), 0) + 1
         if c["kind"] == "lf":
             cell = coverage_cell(c, r)
             matrix[cell] = matrix.get(cell, 0) + 1
@@ -937,7 +1080,7 @@ def run(tier: str, seed: int) -> int:
                      "ns_substitution_model.General (param_pick form)", "DiscreteSubstitutionModel (BH/DT: no Q)",
                      "edge- or bin-scoped substitution parameters (partitioned_params other than rate)",
                      "multiple loci"],
-        skipped_parameter_out_of_bounds=skipped,
+        refusals=refusals, general_stationary_boundary=gs_stats,
         model_impl_disagreements=len(disagreements),
         model_impl_disagreement_samples=[dict(key=d["key"], max_scaled_diff=d["max_scaled_diff"], spec=d["case"].get("spec"),
                                               style=d["case"].get("style"), case=d["case"]) for d in disagreements[:5]],
